@@ -36,8 +36,9 @@ if [ ! -f "$L/.done" ]; then
   touch "$L.tmp/.done"
   rm -rf "$L"; mv "$L.tmp" "$L"
   # keep the cache small: drop all but the 3 newest object sets of this variant
-  ls -dt "$B"/lbz-$V-* 2>/dev/null | tail -n +4 | xargs -r rm -rf
-  ls -t "$B"/bin/lbzsim-$V-* 2>/dev/null | tail -n +4 | xargs -r rm -f
+  # (never anything younger than an hour: a check of another tree may be running from it)
+  for old in $(ls -dt "$B"/lbz-$V-* 2>/dev/null | tail -n +4); do [ -n "$(find "$old" -maxdepth 0 -mmin +60)" ] && rm -rf "$old"; done
+  for old in $(ls -t "$B"/bin/lbzsim-$V-* 2>/dev/null | grep -v '\.hs$' | tail -n +4); do [ -n "$(find "$old" -maxdepth 0 -mmin +60)" ] && rm -f "$old" "$old.hs"; done
 fi
 mkdir -p "$B/bin"
 OUT=$B/bin/lbzsim-$V-$H
